@@ -3,7 +3,7 @@
 sha="$1"; shift
 p=$(mktemp /dev/shm/revert_XXXXXX.patch)
 git -C /repo diff "$sha" "$sha^" > "$p"
-/verif/tools/with_patch.sh "$p" "$@"
+"$(dirname "$(readlink -f "$0")")/with_patch.sh" "$p" "$@"
 rc=$?
 rm -f "$p"
 exit $rc
